@@ -106,6 +106,24 @@ def gen(tier, rng):
                 cases.append(Case(sess.session(calls + final_run(prog, [], final)), sig=key + "\n#prefix " + "; ".join(pre) + "\n#then " + final,
                                   tag="prefix-frames", meta=("hist", pi, "frames")))
             pi += 1
+    # NEW is a complete reset: whatever ran before, the next program behaves as in a fresh interpreter also when it is entered
+    # without RUN (GOTO n, a direct READ), i.e. without RUN's own CLEAR
+    NEW_PRES = [['10 DATA 1,2,3', '20 READ A,B', '30 DEF FNA(X)=X+1', '40 DEFINT Q', '50 FOR I=1 TO 3:GOSUB 70', '60 STOP', '70 DIM Z(3):Z(1)=5:RETURN'],
+                ['10 DATA "a","b"', '20 READ S$', '30 GOSUB 40', '40 T=RND(-3):FOR J=1 TO 2']]
+    NEW_PROGS = [(['10 READ A:PRINT A;Q;Z(1)', '20 DATA 7,8,9', '30 PRINT FNA(1)'], ["GOTO 10", "READ Q9:PRINT Q9", "RUN", "RETURN", "NEXT", "CONT", "PRINT Q;A;I;FNA(2)"]),
+                 (['10 DATA 4', '20 READ D:PRINT D;S$;"<"', '30 Q=1.5:PRINT Q'], ["GOTO 20", "GOTO 10", "READ Q9:PRINT Q9", "RUN 20", "PRINT RND(1)=RND(1);T"])]
+    pi = 500000
+    for prog, finals in NEW_PROGS:
+        typeit = [sess.E(l) for l in prog]
+        key = "\n".join(prog)
+        for final in finals:
+            cases.append(Case(sess.session(["R5000"] + typeit + final_run(prog, [], final)), sig=key + "\n#then " + final, tag="fresh",
+                              meta=("fresh", pi, None)))
+            for pre in NEW_PRES:
+                calls = ["R5000"] + [sess.E(l) for l in pre] + [sess.E("RUN"), "R5000", sess.E("NEW"), "R5000"] + typeit
+                cases.append(Case(sess.session(calls + final_run(prog, [], final)), sig=key + "\n#prefix: " + " / ".join(pre) + " ; RUN ; NEW\n#then " + final,
+                                  tag="prefix-new-entry", meta=("hist", pi, "new-entry")))
+            pi += 1
     # NEW leaves an empty listing
     for pi in range(20):
         prog, inputs = gen_prog.generate(rng, features={"tron": False, "input": False})
